@@ -1,5 +1,6 @@
 """C17 — allocation failure is reported cleanly and nothing leaks."""
 import gen
+import math
 from evalutil import *
 
 ID = "C17"
@@ -147,8 +148,40 @@ def _check(op, a, base):
     return None
 
 
+def _end_of_order_polys(ctx):
+    """small squares around the very first and the very last cell of the cell order (base cell 0, all digits 0; base
+    cell 121, all digits 6) and around a cell next to each: the iterators end there through a different exit
+    (nextCell has no successor) than everywhere else"""
+    cells = []
+    for res in (0, 1, 2, 3, 5):
+        cells += [(res, gen.mkcell(res, 121, [6] * res)), (res, gen.mkcell(res, 0, [0] * res))]
+        if res:
+            cells.append((res, gen.mkcell(res, 121, [6] * (res - 1) + [5])))
+    out = []
+    ans = ctx.c([f"c2ll {gen.hx(c)}" for _, c in cells], tag="endcells")
+    for (res, c), a in zip(cells, ans):
+        if not ok(a):
+            continue
+        t = a.split()
+        la, ln = bits2f(t[1]), bits2f(t[2])
+        d = 0.25 * 0.42 / (7 ** (res / 2.0))     # well inside the cell
+        for f in (1.0, 6.0):                     # within the cell / covering its neighbours too
+            dd = d * f
+            c_ = max(0.15, math.cos(la))
+            out.append((res, [[(la + dd, gen.norm_lng(ln - dd / c_)), (la + dd, gen.norm_lng(ln + dd / c_)),
+                               (la - dd, gen.norm_lng(ln + dd / c_)), (la - dd, gen.norm_lng(ln - dd / c_))]]))
+    return out
+
+
 def evaluate(ctx, rng, tier, focus, budget, broken):
     ops = _ops(rng, tier) + _pair_ops(ctx, rng)
+    for res, loops in _end_of_order_polys(ctx):
+        ps = gen.poly_str(loops)
+        for i in range(0, 4):
+            ops.append(f"apolyfill {i} 0 {res} 0 {ps}")
+            for flags in (0, 2):
+                ops.append(f"apolyfillx {i} 0 {res} {flags} {ps}")
+                ops.append(f"amaxpolyfillx {i} 0 {res} {flags} {ps}")
     for loops in _polys(rng, tier):
         ps = gen.poly_str(loops)
         for res in (1, 2, 3):
